@@ -288,6 +288,13 @@ class Statement(object):
         if self.instruction.is_pseudo_define or self.instruction.mnemonic == "END":
             return
 
+        if self.operand.value.is_multi_byte() or self.operand.value.is_multi_word():
+            try:
+                self.operand.value.fix_addresses(statements)
+            except (ValueError, ValueTypeError) as error:
+                raise TranslationError(str(error), self)
+            return
+
         if self.operand.is_relative():
             base_value = 0x101 if self.instruction.is_short_branch else 0x10001
             branch_index = self.code_pkg.additional.int
